@@ -315,6 +315,11 @@ def jobs_for(ck):
         for pl in (('root', 'allsub') if ck.thorough else (('root', 'allsub')[(pi_ + ck.seed) % 2],)):
             jobs.append((idx, spec, pl, False, ()))
             idx += 1
+    # one generated list consumed by a custom target and by another target, in both orders
+    for gi, spec in enumerate(pg.genct_specs()):
+        for pl in (('root', 'allsub') if ck.thorough else (('root', 'allsub')[(gi + ck.seed) % 2],)):
+            jobs.append((idx, spec, pl, False, ()))
+            idx += 1
     # a precompiled header that includes a generated header
     for qi, spec in enumerate(pg.pch_specs()):
         for pl in (('root', 'allsub') if ck.thorough else (('root', 'allsub')[(qi + ck.seed) % 2],)):
